@@ -105,6 +105,10 @@ func mkPKI(nTrusted int, tail []byte) *pki {
 		certBlock("root", w.root, "CERTIFICATE", false)}, tail)
 	w.embedded = mkCert("embedded")
 	trustedRootCertificate = w.embedded
+	if nTrusted < 0 {
+		// a non-nil pool that lists no certificate: nothing is trusted
+		w.pool = m_NewCertPool()
+	}
 	if nTrusted > 0 {
 		w.pool = m_NewCertPool()
 		for i := 0; i < nTrusted; i++ {
